@@ -302,7 +302,8 @@ def run(ck):
                         for h in [list(h) for h in itertools.product(OPS, repeat=4)][(ck.seed + d) % 2 :: 2]:
                             cases.append(dict(sampler=kind, T=T, limits=limits, d=d, history=h, bound=2))
                         for h in [list(h) for h in itertools.product(OPS, repeat=3)]:
-                            cases.append(dict(sampler=kind, T=T, limits=limits, d=d, history=h, bound=3))
+                            # (an ensemble iteration has three choice points per walker: 3 deviations over 9 iterations exceed the execution cap)
+                            cases.append(dict(sampler=kind, T=T, limits=limits, d=d, history=h, bound=3 if kind != "EnsembleSampler" else 2))
     for kind in ("GibbsChain", "MetropolisChain"):
         for T in (1.0, 2.5):
             for h in (["step", "bnd", "step"], ["bnd", "adv1", "bnd"], ["adv3", "bnd", "adv1"], ["step", "step", "bnd"]):
